@@ -1538,7 +1538,7 @@ theorem stateFn_sem (hlaw : PendLaw env.ops Pend) (hhead : HeadOk env.tbl L = tr
     (hrelex : RelexOk env.tbl L TT S = true) (htt : TextTypeOk env.tbl TT = true) (hph : PhaseOk env.tbl P = true)
     (m : M κ) (h : HInv env.tbl L inp m) (hlab : LabInv TT P Pend m) (hsem : HSem env.tbl L S inp m) :
     SemPost env L S Pend inp m.c.isLast (stateFn env inp m) := by
-  rw [stateFn_split]
+  rw [stateFn_preConsume]
   cases hsd : env.tbl.state? m.c.state with
   | none => exact SemPost_of_err rfl
   | some sd =>
